@@ -486,3 +486,42 @@ Section RefsP.
     now rewrite (new_ref_idem _ _ _ Hs), (new_ref_idem _ _ _ Hr).
   Qed.
 End RefsP.
+
+(** concrete envelopes (user AND system messages: the system flag, the message name and the four reference
+    strings are fields of the envelope): exactly once, in order, every field intact, any chunking *)
+Lemma envelopes_exactly_once (es : list env) (chunks : list bytes) :
+  Forall env_len32 es ->
+  Forall (fun e => N.of_nat (length (env_encode e)) <= max_frame) es ->
+  concat chunks = concat (map (fun e => frame (env_encode e)) es) ->
+  receive env_dec chunks = map RMsg es ++ [REof] /\ delivered (receive env_dec chunks) = es.
+Proof.
+  intros H32 Hmax E. rewrite <- map_map in E.
+  assert (HF : Forall legal (map env_encode es)).
+  { apply Forall_map. apply Forall_forall. intros e He. rewrite Forall_forall in Hmax.
+    split; [pose proof (env_encode_min e); lia|now apply Hmax]. }
+  assert (Hmap : map (on_body env_dec) (map env_encode es) = map RMsg es).
+  { rewrite map_map. apply map_ext_in. intros e He. unfold on_body.
+    rewrite Forall_forall in H32. now rewrite (env_dec_enc e (H32 e He)). }
+  split.
+  - rewrite (receive_frames env_dec _ _ HF E). now rewrite Hmap.
+  - rewrite (receive_frames env_dec _ _ HF E), delivered_app, Hmap. cbn. rewrite app_nil_r.
+    clear. induction es as [|e es IH]; [reflexivity|]. cbn. now rewrite IH.
+Qed.
+
+Lemma system_refs (norm_addr norm_path : bytes -> option bytes) :
+  (forall a a', norm_addr a = Some a' -> norm_addr a' = Some a') ->
+  (forall p p', norm_path p = Some p' -> norm_path p' = Some p') ->
+  forall (e : env) (junk a1 p1 a2 p2 : bytes) (s r : bytes * bytes),
+    e_system e = true ->
+    new_ref norm_addr norm_path a1 p1 = Some s ->
+    new_ref norm_addr norm_path a2 p2 = Some r ->
+    e_saddr e = fst s -> e_spath e = snd s -> e_raddr e = fst r -> e_rpath e = snd r ->
+    env_len32 e ->
+    exists e', env_parse (env_encode e ++ junk) = Ok e' /\ e_system e' = true /\
+               handle_refs norm_addr norm_path e' = Some (s, r).
+Proof.
+  intros Ha Hp e junk a1 p1 a2 p2 s r Hsys Hs Hr E1 E2 E3 E4 HL.
+  destruct (sender_ref norm_addr norm_path Ha Hp e junk a1 p1 a2 p2 s r Hs Hr E1 E2 E3 E4 HL) as (e' & P & Hh).
+  exists e'. rewrite (env_roundtrip e junk HL) in P. injection P as <-. repeat split; auto.
+  now apply env_roundtrip.
+Qed.
